@@ -7,9 +7,8 @@
  * Three arithmetic modes (the non-linear operations `*`, `/`, `%` of the number model):
  *   default       UNBOUNDED.  They are the uninterpreted symbols of models/zmodel.c with its sign/unit axioms.  A
  *                 check is then a proof for all inputs below 2^ZBITS = 2^40 in magnitude (DESIGN 2.4a); whatever it
- *                 needs to know about divisibility enters as explicit instances K_* of the five kernel facts of
- *                 lemmas.smt2 (division identity, uniqueness of the quotient, distributivity, associativity,
- *                 commutativity), written as hypotheses LEM(...) of the postcondition.
+ *                 needs to know about divisibility enters as explicit instances T_* of the schemas proved in
+ *                 lemmas.smt2, written as hypotheses LEM(...) of the postcondition.
  *   -DZM_SMALL=n  BOUNDED cross-check: machine arithmetic on n bits (zsmall.c), inputs below 2^ZBITS (ZBITS = 3).
  *                 SAT has to enumerate: 2^20 input combinations take about 30 s, hence the small bound.
  *   C++           native replay: machine arithmetic on __int128.
@@ -120,28 +119,30 @@ static inline i128 fshr(i128 v, i128 k){ return k >= 127 ? (v < 0 ? -1 : 0) : (v
 /* v * 2^k for 0 <= k < 100 */
 static inline i128 shl_(i128 v, i128 k){ return (i128)((u128)v << (unsigned)k); }
 
-/* ================================================================ kernel facts (lemmas.smt2), as instances
- * Every K_* is a valid statement about the integers for all arguments; LEM(e) makes it a hypothesis of a postcondition
- * in the unbounded mode and drops it (it is true) in the bounded mode. */
+/* ================================================================ divisibility facts (lemmas.smt2), as instances
+ * Every T_* below is a valid statement about the integers for all arguments.  lemmas.smt2 proves each in two layers, both
+ * discharged by z3 and cvc5 on every run: (1) five kernel facts about the real `*`, truncating `/` and `%` (division
+ * identity, uniqueness of the quotient, distributivity, associativity, commutativity, units); (2) each T_* schema from
+ * finitely many kernel instances, with `*`, `/`, `%` uninterpreted (linear arithmetic + congruence closure only).
+ * LEM(e) makes an instance a hypothesis of a postcondition in the unbounded mode and drops it (it is true) in the
+ * bounded mode. */
 #define M_ S_mul
 #define D_ S_div
 #define R_ S_rem
-/* division identity: y != 0  ==>  x = y * (x / y) + x % y,  |x % y| < |y|,  x % y = 0 or of the sign of x */
-static inline bool K_DIV(i128 x, i128 y){ return y == 0 || (x == M_(y, D_(x, y)) + R_(x, y) && iabs(R_(x, y)) < iabs(y) && (R_(x, y) == 0 || (R_(x, y) > 0) == (x > 0))); }
-/* uniqueness: d != 0, d*m = d*q + r, |r| < |d|  ==>  m = q, r = 0 */
-static inline bool K_UNIQ(i128 d, i128 m, i128 q, i128 r){ return !(d != 0 && M_(d, m) == M_(d, q) + r && iabs(r) < iabs(d)) || (m == q && r == 0); }
-static inline bool K_DIST(i128 a, i128 b, i128 c){ return M_(a, b + c) == M_(a, b) + M_(a, c); }
-static inline bool K_ASSOC(i128 a, i128 b, i128 c){ return M_(M_(a, b), c) == M_(a, M_(b, c)); }
-static inline bool K_COMM(i128 a, i128 b){ return M_(a, b) == M_(b, a); }
-/* derived, by propositional reasoning that CBMC does itself:
- *   L_EXP(a, x): if a | x then x = a * (x / a)               (a cofactor)
- *   L_CON(a, x, w): if x = a * w then a | x                   (the converse)
- *   L_MULM1(a, q): a * (q - 1) = a * q - a,  L_NEG(a, q): a * (-q) = -(a * q) */
-#define COF(a, x) D_(x, a)
-static inline bool L_EXP(i128 a, i128 x){ return K_DIV(x, a); }
-static inline bool L_CON(i128 a, i128 x, i128 w){ return K_DIV(x, a) && K_UNIQ(a, w, D_(x, a), R_(x, a)); }
-static inline bool L_MULM1(i128 a, i128 q){ return K_DIST(a, q, -1); }
-static inline bool L_NEG(i128 a, i128 q){ return K_DIST(a, q, -q); }
+/* d | a, a | x  ==>  d | x */
+static inline bool T_TRANS(i128 d, i128 a, i128 x){ return IMP(dvd(d, a) && dvd(a, x), dvd(d, x)); }
+/* w = u + v (w = u - v), d | u, d | v  ==>  d | w */
+static inline bool T_SUM(i128 d, i128 u, i128 v, i128 w){ return IMP(w == u + v && dvd(d, u) && dvd(d, v), dvd(d, w)); }
+static inline bool T_DIFF(i128 d, i128 u, i128 v, i128 w){ return IMP(w == u - v && dvd(d, u) && dvd(d, v), dvd(d, w)); }
+/* normal form: for a != 0, rb = b mod |a| lies in [0, |a|) and |a| | v - rb  <=>  |a| | v - b */
+static inline bool T_NF(i128 a, i128 b, i128 v){ return a == 0 || (0 <= fmod_(b, a) && fmod_(b, a) < iabs(a) && dvd(iabs(a), v - fmod_(b, a)) == dvd(iabs(a), v - b)); }
+/* d | u, |u| < |d|  ==>  u = 0 */
+static inline bool T_SMALL(i128 d, i128 u){ return IMP(dvd(d, u) && iabs(u) < iabs(d), u == 0); }
+/* d | u  ==>  d | u * c  and  d * c | u * c */
+static inline bool T_MULR(i128 d, i128 u, i128 c){ return IMP(dvd(d, u), dvd(d, M_(u, c))); }
+static inline bool T_MULB(i128 d, i128 u, i128 c){ return IMP(dvd(d, u), dvd(M_(d, c), M_(u, c))); }
+/* x = y * (x / y) + x % y  (y != 0) */
+static inline bool T_DIVID(i128 x, i128 y){ return y == 0 || x == M_(y, D_(x, y)) + R_(x, y); }
 #if defined(ZM_SMALL)
 #define LEM(e) 1
 #else
